@@ -242,6 +242,9 @@ type c20fCase struct {
 	// process trusts); Down: indexes of nodes that refuse connections
 	TLS  bool  `json:"source_tls_enable,omitempty"`
 	Down []int `json:"nodes_down,omitempty"`
+	// Closing: indexes of nodes that accept the connection and close it as soon as the first command arrives (a proxy whose
+	// backend is gone, a node at its client limit)
+	Closing []int `json:"nodes_closing,omitempty"`
 }
 
 // c20TLS: a CA and one server certificate for the three node addresses, valid from 1990 to 2100
@@ -297,6 +300,7 @@ func c20fRun(t *testing.T, c c20fCase) (kind, what string) {
 	}
 	node := slot.SyncNode{Id: 1, Source: names[0], SourcePassword: pw, Slaves: append([]string{}, names[1:]...), SlotLeftBoundary: 0, SlotRightBoundary: 100}
 	defer hook.SetDialHook(nil)
+	defer ev.Watch(fmt.Sprintf("re-discovery %+v", c), 120*time.Second, c)()
 	var res *slot.SyncNode
 	var err error
 	func() {
@@ -331,6 +335,16 @@ func c20fRun(t *testing.T, c c20fCase) (kind, what string) {
 				}
 				cc, sc := memconn.Pair(addr)
 				conns = append(conns, sc)
+				for _, d := range c.Closing {
+					if names[d] == addr {
+						// like a TCP peer: the client's first write still succeeds, its read meets the end
+						go func() {
+							sc.Read(make([]byte, 4096))
+							sc.Close()
+						}()
+						return cc, nil, true
+					}
+				}
 				if c.TLS {
 					go masters[addr].Serve(tls.Server(sc, c20TLSConfig))
 				} else {
@@ -352,6 +366,9 @@ func c20fRun(t *testing.T, c c20fCase) (kind, what string) {
 	rejects := strings.HasPrefix(c.AuthReply, "-WRONGPASS") || c.AuthReply == "-ERR invalid password"
 	masterDown := false
 	for _, d := range c.Down {
+		masterDown = masterDown || d == c.MasterNode
+	}
+	for _, d := range c.Closing {
 		masterDown = masterDown || d == c.MasterNode
 	}
 	switch {
@@ -379,7 +396,7 @@ func TestVerif_C20F(t *testing.T) {
 		if err := ev.LoadReplay(&c); err != nil {
 			t.Fatal(err)
 		}
-		if c.AuthReply == "" && !c.Password && c.MasterNode == 0 && !c.TLS && len(c.Down) == 0 {
+		if c.AuthReply == "" && !c.Password && c.MasterNode == 0 && !c.TLS && len(c.Down) == 0 && len(c.Closing) == 0 {
 			return
 		}
 		k, w := c20fRun(t, c)
@@ -426,6 +443,23 @@ func TestVerif_C20F(t *testing.T) {
 					if k != "" {
 						ev.Violate("C20|real-factory|"+k, fmt.Sprintf("%s (source.tls_enable=%v, nodes down: %v)", w, tlsOn, down), c)
 					}
+				}
+			}
+		}
+	}
+	// nodes that accept and close at once, with and without a password (AUTH is the first exchange)
+	for _, pwc := range []bool{false, true} {
+		for mn := 0; mn < 3; mn++ {
+			for _, closing := range [][]int{{0}, {1}, {2}, {0, 1}, {1, 2}, {0, 1, 2}} {
+				c := c20fCase{Password: pwc, AuthReply: "+OK", MasterNode: mn, Closing: closing}
+				k, w := c20fRun(t, c)
+				n++
+				h := ev.HashS(fmt.Sprint(c))
+				ev.State(h)
+				ev.Nontrivial(h)
+				ev.Outcome("real-factory-closing:" + k)
+				if k != "" {
+					ev.Violate("C20|real-factory|"+k, fmt.Sprintf("%s (password configured: %v, nodes that close the connection at once: %v)", w, pwc, closing), c)
 				}
 			}
 		}
